@@ -231,6 +231,11 @@ pub(in crate::layer) fn replace_layer_exec_d_programs<P: AsRef<Path>>(
     if !exec_d_programs.is_empty() {
         fs::create_dir_all(&exec_d_dir)?;
 
+        // Copy in a fixed order: should a copy fail part-way (e.g. a program registered from this very
+        // directory), what is left behind must not depend on the iteration order of the map.
+        let mut exec_d_programs = exec_d_programs.iter().collect::<Vec<_>>();
+        exec_d_programs.sort();
+
         for (name, path) in exec_d_programs {
             // We could just try to copy the file here and let the call-site deal with the
             // I/O errors when the path does not exist. We're using an explicit error variant
